@@ -10,10 +10,10 @@ def grow_pairs : List (List Nat) := [[8, 6], [16, 12], [32, 24], [8, 6], [16, 12
 def len_functions_touching_locks : List Nat := []
 def limiter_cleanup_locks : List Nat := [1, 0]
 def limiter_global_locks : Nat := 1
-def limiter_sampled_evictions : Nat := 0
+def limiter_sampled_evictions : Nat := 6000
 def limiter_sampled_no_victim : Nat := 0
-def limiter_sampled_own_key : Nat := 6000
-def limiter_sampled_victim_not_stored : Nat := 6000
+def limiter_sampled_own_key : Nat := 0
+def limiter_sampled_victim_not_stored : Nat := 0
 def mutators_without_write_lock : List Nat := []
 def seg_counts : List Nat := [16, 16, 16, 16, 16, 32, 64, 128, 256, 256, 256]
 def segmap_count_atomic : Bool := true
